@@ -1106,6 +1106,23 @@ theorem C06_push_swallow_witness :
     (pPush true).2 = none ∧ (pPush true).1.log.map (fun en => (en.child, en.raised)) = [(0, false), (1, true)] := by
   decide
 
+/-! ### an all-of trigger whose owner's run raises -/
+
+/-- RESET BEFORE THE CALLBACK: whenever the trigger fires it is empty afterwards — whether the run it started raised or
+not — and it agrees with C02's `Acc.call` -/
+theorem C06_trigger_reset_before_callback (lab : Nat → Label) (a : Acc) (other : Option Nat) (raises : Bool) :
+    accFire true lab a other raises = a.call lab other ∧
+    ((accFire true lab a other raises).2 = true → (accFire true lab a other raises).1.received = []) := by
+  unfold accFire Acc.call
+  cases other <;> simp <;> split <;> simp
+
+/-- callback before reset: `report` waits for `left` (0) and `right` (1). Round 1: both complete, `report`'s run raises.
+Round 2: `left` raises (no `ran`), only `right` completes — the trigger fires again on the stale `left`; with the reset
+first it does not -/
+theorem C06_trigger_callback_first_witness :
+    (accHistory false id { conns := [0, 1], received := [] } [(0, false), (1, true), (1, false)]).2 = 2 ∧
+    (accHistory true id { conns := [0, 1], received := [] } [(0, false), (1, true), (1, false)]).2 = 1 := by decide
+
 end PwVerif.C06
 
 
@@ -1249,3 +1266,5 @@ end PwVerif.C06
 #print axioms PwVerif.C06.C06_recovery_failure_pinned_witness
 #print axioms PwVerif.C06.C06_push_propagates
 #print axioms PwVerif.C06.C06_push_swallow_witness
+#print axioms PwVerif.C06.C06_trigger_reset_before_callback
+#print axioms PwVerif.C06.C06_trigger_callback_first_witness
